@@ -134,6 +134,12 @@ def make(rng, kind, d=2):
         return build(), build
     if kind == "ThinPlateSplines":
         s, t = tps_pair(rng)
+        if rng.random() < 0.2:
+            # source landmarks given as integer pixel positions (an integer-typed point cloud)
+            import menpo.shape as ms
+            si = np.round(s.points).astype(np.int64)
+            if len(np.unique(si, axis=0)) == len(si):
+                s = ms.PointCloud(si)
         k = int(rng.integers(0, 3))
         msv = [1e-4, 1e-6, 1e-3][rng.integers(0, 3)]
 
